@@ -209,6 +209,25 @@ def correspondence(ctx):
                           {'observed': r, 'why': 'step %s: the feedback belongs to the report whose formatter is tagged %r; its message is %r, '
                                                  'rendered from its fields through that formatter it would be %r' % (r['step'], r['tag'], r['message'], want)})
 
+    # the core commands: one object per piece of text, carrying that text
+    WANT = {'gently': ['text G'], 'explain': ['text E'], 'guidance': ['text U'], 'compliment': ['text C'], 'give_partial': ['text P'],
+            'set_correct': None, 'feedback': ['text F'], 'system_error': ['text S'], 'log': ['text L'], 'log-several': ['text-7'],
+            'debug': ['text D'], 'debug-several': ['text D1', 'text D2']}
+    for r in res2.get('core_commands', []):
+        ctx.case(('core-command', r['command']), nontrivial=True)
+        want = WANT[r['command']]
+        if r['raised']:
+            ctx.violation('core-command-raises:' + r['command'], {'observed': r, 'why': '%s raised %s' % (r['command'], r['raised'])})
+        elif want is None:
+            if len(r['recorded']) != 1:
+                ctx.violation('core-command-not-once:' + r['command'], {'observed': r, 'why': '%s recorded %d objects' % (r['command'], len(r['recorded']))})
+        elif len(r['recorded']) != len(want):
+            ctx.violation('core-command-not-once:' + r['command'], {'observed': r, 'why': '%s recorded %d objects for %d pieces of text'
+                                                                                       % (r['command'], len(r['recorded']), len(want))})
+        elif [x[1] for x in r['recorded']] != want:
+            ctx.violation('core-command-message:' + r['command'], {'observed': r, 'why': '%s was given %r, the recorded feedback says %r'
+                                                                                      % (r['command'], want, [x[1] for x in r['recorded']])})
+
     # (a) creation: exhaustive over the spec space
     items = []
     for s, r in zip(specs, res['creation']):
